@@ -101,7 +101,7 @@ func (d *dt1) totalSortD(call ssa.CallInstruction, depth int) (ssa.Value, string
 		return arg, "partial"
 	}
 	// module normaliser sorting its parameter in place
-	if cal := cc.StaticCallee(); cal != nil && d.c.InModule(cal) && depth == 0 {
+	if cal := calleeOf(cc); cal != nil && d.c.InModule(cal) && depth == 0 {
 		for i, prm := range cal.Params {
 			if _, isSlice := prm.Type().Underlying().(*types.Slice); !isSlice {
 				continue
@@ -406,7 +406,7 @@ func (d *dt1) bodyEffects(f *ssa.Function, blocks map[*ssa.BasicBlock]bool, what
 			case ssa.CallInstruction:
 				cc := x.Common()
 				n := calleeFullName(cc)
-				cal := cc.StaticCallee()
+				cal := calleeOf(cc)
 				switch {
 				case strings.HasPrefix(n, "builtin "):
 				case cal != nil && c.InModule(cal):
@@ -522,7 +522,7 @@ func (d *dt1) taintedUses(f *ssa.Function, v ssa.Value, label string, depth int)
 												}
 											}
 										case ssa.CallInstruction:
-											if cal := esc.Common().StaticCallee(); cal == nil || !c.InModule(cal) {
+											if cal := calleeOf(esc.Common()); cal == nil || !c.InModule(cal) {
 												escapes = true
 											}
 										}
@@ -658,7 +658,7 @@ func (d *dt1) taintedUses(f *ssa.Function, v ssa.Value, label string, depth int)
 					}
 					continue
 				}
-				cal := cc.StaticCallee()
+				cal := calleeOf(cc)
 				if cal != nil && c.InModule(cal) {
 					if d.returnsNormalised(cal) {
 						continue
